@@ -803,7 +803,9 @@ pub fn adjust_commit(w: &mut World, _p: usize, _g: usize, spec: &mut CommitSpec)
         // a resumption PSK of a recent epoch next to the external ones (every member still retains it)
         let latest = w.groups[_g].log.len() as u64;
         if latest >= 1 {
-            spec.res_psks.push(0);
+            // mostly the epoch just left, sometimes an older one (which a member may hold in memory, in storage, or
+            // no longer at all)
+            spec.res_psks.push(*w.prng.pick(&[0u8, 0, 1, 2, 3]));
             spec.res_first = w.prng.chance(1, 2);
         }
     }
